@@ -23,6 +23,7 @@ import (
 	"runtime"
 	"runtime/debug"
 	"sort"
+	"strconv"
 	"strings"
 	"time"
 
@@ -150,7 +151,13 @@ func (mm *mismatch) sig(engine string) string {
 }
 
 func (mm *mismatch) desc(engine string) string {
-	return fmt.Sprintf("%s %s probe=%s: got [%s] want [%s]", engine, mm.op, mm.probe, mm.got, mm.want)
+	clip := func(s string) string {
+		if len(s) > 1200 {
+			return s[:1200] + " ..."
+		}
+		return s
+	}
+	return fmt.Sprintf("%s %s probe=%s: got [%s] want [%s]", engine, mm.op, mm.probe, clip(mm.got), clip(mm.want))
 }
 
 type obsItem struct {
@@ -289,7 +296,11 @@ func classify(got []gotLite, ents []ment, rev bool, probe []byte) (kind, rel str
 		}
 		rel = relation(got[first].key, wantKey(first))
 	}
-	var cnt [32]int
+	var cntBuf [32]int
+	cnt := cntBuf[:]
+	if n > len(cnt) {
+		cnt = make([]int, n)
+	}
 	missing, extra, dup := false, false, false
 	for i := range got {
 		if got[i].idx < 0 {
@@ -489,14 +500,15 @@ func compareIndex(idx index, m *model, probes []probe) []*mismatch {
 	fail := func(op string, p *probe, it utils.Iterator, redo func(), ents []ment, rev bool) {
 		redo()
 		lim := limit
-		if lim > len(liteBuf) {
-			lim = len(liteBuf)
+		buf := liteBuf[:]
+		if lim > len(buf) {
+			buf = make([]gotLite, lim)
 		}
 		var pb []byte
 		if p != nil {
 			pb = p.kb
 		}
-		kind, rel := classify(readLite(it, ents, rev, lim, liteBuf[:]), ents, rev, pb)
+		kind, rel := classify(readLite(it, ents, rev, lim, buf), ents, rev, pb)
 		add(op, kind, rel, pb, func() *mismatch {
 			ps := "-"
 			if p != nil {
@@ -567,6 +579,10 @@ type universe struct {
 	name   string
 	keys   []ikey
 	probes []probe
+	// fan-out universes (see mkFanUniverse)
+	fan      string // ART node kind the sibling count reaches
+	preludes map[string][]int
+	ops      []int
 }
 
 func mkUniverse(name string, cfs []kv.ColumnFamily) *universe {
@@ -589,10 +605,150 @@ func mkUniverse(name string, cfs []kv.ColumnFamily) *universe {
 }
 
 func universes() map[string]*universe {
-	return map[string]*universe{
+	us := map[string]*universe{
 		"2cf": mkUniverse("2cf", []kv.ColumnFamily{kv.CFDefault, kv.CFWrite}),
 		"1cf": mkUniverse("1cf", []kv.ColumnFamily{kv.CFDefault}),
 	}
+	for _, fam := range fanFamilies {
+		for _, n := range fanSizes {
+			u := mkFanUniverse(fam, n)
+			us[u.name] = u
+		}
+	}
+	return us
+}
+
+// Fan-out universes: N sibling keys that differ in ONE byte position, so that one ART inner
+// node gets N children and passes through every node kind (Node4 -> Node16 -> Node48 ->
+// Node256) and every growth step. Family "uk": the byte is a user-key byte (user keys
+// "m"+b+"x", version 1); family "ts": the byte is the last byte of the timestamp suffix
+// (versions of ONE user key "hot": version v has suffix byte 255-v), which is what many
+// versions of a hot key produce. Two neighbour keys outside the subtree are always inserted
+// first. A prelude inserts the N siblings in ascending, descending or interleaved byte
+// order (Node48 keeps children in insertion order); then every sequence of the small op
+// alphabet follows: insert the byte just below the smallest / just above the largest sibling /
+// the one gap left in the middle, overwrite the smallest / largest / a middle sibling.
+var fanFamilies = []string{"uk", "ts"}
+var fanSizes = []int{3, 4, 5, 15, 16, 17, 47, 48, 49, 255, 256}
+var fanOrders = []string{"asc", "desc", "mix"}
+
+func fanKind(n int) string {
+	switch {
+	case n <= 4:
+		return "node4"
+	case n <= 16:
+		return "node16"
+	case n <= 48:
+		return "node48"
+	}
+	return "node256"
+}
+
+func mkFanUniverse(fam string, n int) *universe {
+	u := &universe{name: fmt.Sprintf("fan-%s-%d", fam, n), fan: fanKind(n), preludes: map[string][]int{}}
+	key := func(b int) ikey {
+		if fam == "uk" {
+			return dk("m"+string([]byte{byte(b)})+"x", 1)
+		}
+		return dk("hot", uint64(255-b))
+	}
+	// sibling bytes: a centred range with one gap in the middle; below/above = its outer neighbours
+	var sib []int
+	below, above, gap := -1, -1, -1
+	switch {
+	case n == 256:
+		for b := 0; b < 256; b++ {
+			sib = append(sib, b)
+		}
+	case n == 255:
+		for b := 1; b < 256; b++ {
+			sib = append(sib, b)
+		}
+		below = 0
+	default:
+		s0 := (256 - n - 1) / 2
+		gap = s0 + n/2
+		for b := s0; b <= s0+n; b++ {
+			if b != gap {
+				sib = append(sib, b)
+			}
+		}
+		below, above = s0-1, s0+n+1
+	}
+	// keys: 0,1 = neighbours outside the subtree; 2..n+1 = siblings ascending; then the extras
+	if fam == "uk" {
+		u.keys = append(u.keys, dk("l\x80x", 1), dk("n\x80x", 1))
+	} else {
+		u.keys = append(u.keys, dk("hos", 1), dk("hou", 1))
+	}
+	for _, b := range sib {
+		u.keys = append(u.keys, key(b))
+	}
+	asc := []int{0, 1}
+	for i := range sib {
+		asc = append(asc, 2+i)
+	}
+	desc := []int{0, 1}
+	for i := len(sib) - 1; i >= 0; i-- {
+		desc = append(desc, 2+i)
+	}
+	mix := []int{0, 1}
+	for i := 0; i < len(sib); i += 2 {
+		mix = append(mix, 2+i)
+	}
+	for i := len(sib) - 1 - len(sib)%2; i >= 1; i -= 2 {
+		mix = append(mix, 2+i)
+	}
+	u.preludes["asc"], u.preludes["desc"], u.preludes["mix"] = asc, desc, mix
+	for _, b := range []int{below, above, gap} {
+		if b >= 0 {
+			u.ops = append(u.ops, len(u.keys))
+			u.keys = append(u.keys, key(b))
+		}
+	}
+	u.ops = append(u.ops, 2, 2+len(sib)-1, 2+len(sib)/2) // overwrite smallest, largest, a middle sibling
+	// probes: around the smallest / largest sibling, the gap, and outside the subtree
+	pb := map[int]bool{}
+	for _, b := range []int{sib[0], sib[len(sib)-1], sib[len(sib)/2], below, above, gap} {
+		for d := -1; d <= 1; d++ {
+			if b >= 0 && b+d >= 0 && b+d < 256 {
+				pb[b+d] = true
+			}
+		}
+	}
+	var pbs []int
+	for b := range pb {
+		pbs = append(pbs, b)
+	}
+	sort.Ints(pbs)
+	add := func(k ikey) { u.probes = append(u.probes, probe{k, k.bytes()}) }
+	if fam == "uk" {
+		for _, b := range pbs {
+			for _, v := range []uint64{0, 1, 2, maxV} {
+				add(ikey{kv.CFDefault, "m" + string([]byte{byte(b)}) + "x", v})
+			}
+		}
+		for _, uk := range []string{"l\x80x", "l\xff\xff", "m\x00\x00", "m\xff\xff", "n\x00\x00", "n\x80x"} {
+			for _, v := range []uint64{0, 1, maxV} {
+				add(ikey{kv.CFDefault, uk, v})
+			}
+		}
+		add(ikey{kv.CFLock, "m\x80x", 1})
+	} else {
+		for _, b := range pbs {
+			add(dk("hot", uint64(255-b)))
+		}
+		for _, v := range []uint64{0, 255, 256, 257, 65535, maxV} { // incl. "read latest" and versions whose suffix differs earlier
+			add(dk("hot", v))
+		}
+		for _, uk := range []string{"hos", "hou", "hor", "hov"} {
+			for _, v := range []uint64{0, 1, maxV} {
+				add(dk(uk, v))
+			}
+		}
+		add(ikey{kv.CFLock, "hot", 1})
+	}
+	return u
 }
 
 type seqCase struct {
@@ -611,6 +767,9 @@ func (c seqCase) String(u *universe) string {
 		}
 		parts = append(parts, u.keys[k].String()+h)
 	}
+	if len(parts) > 14 {
+		parts = append(append(append([]string{}, parts[:4]...), fmt.Sprintf("... %d more in this order ...", len(parts)-10)), parts[len(parts)-6:]...)
+	}
 	return "insert " + strings.Join(parts, " ; ")
 }
 
@@ -623,7 +782,7 @@ func runSeq(u *universe, c seqCase) (out []finding) {
 	var m model
 	vals := make([]val, len(c.Keys))
 	for i, k := range c.Keys {
-		vals[i] = val{"v" + string(rune('0'+i)), byte(i + 1), uint64(100 + i)}
+		vals[i] = val{"v" + strconv.Itoa(i), byte(i + 1), uint64(100 + i)}
 		m.put(u.keys[k], vals[i])
 	}
 	for _, eng := range engines {
@@ -645,7 +804,11 @@ func runSeq(u *universe, c seqCase) (out []finding) {
 			mms := compareIndex(idx, &m, u.probes)
 			utils.VerifReleaseIndex(idx)
 			for _, mm := range mms {
-				out = append(out, finding{"seq: " + mm.sig(eng), c.String(u) + "\n  " + mm.desc(eng)})
+				sig := "seq: " + mm.sig(eng)
+				if u.fan != "" {
+					sig += " fanout=" + fanKind(len(m.ents)-2) // siblings = contents minus the two neighbours
+				}
+				out = append(out, finding{sig, c.String(u) + "\n  " + mm.desc(eng)})
 			}
 		}()
 	}
@@ -708,6 +871,9 @@ func seqPart(r *vr.Run, sh vr.ShardInfo, p *vr.Partial) {
 			return
 		}
 		p.Add("seq_cases", 1)
+		if u.fan != "" {
+			p.Add("fanout_cases", 1)
+		}
 		fs := runSeq(u, c)
 		if len(fs) > 0 {
 			// fresh re-run must fail identically
@@ -750,6 +916,22 @@ func seqPart(r *vr.Run, sh vr.ShardInfo, p *vr.Partial) {
 			one(u1, seqCase{"seq", u1.name, seq, hv})
 		})
 	})
+	// (c) fan-out universes: every node kind and growth step of one ART inner node
+	for _, fam := range fanFamilies {
+		for _, n := range fanSizes {
+			fu := us[fmt.Sprintf("fan-%s-%d", fam, n)]
+			for _, ord := range fanOrders {
+				pre := fu.preludes[ord]
+				forEachSeq(len(fu.ops), r.Pick(2, 3), func(seq []int) {
+					keys := append([]int{}, pre...)
+					for _, o := range seq {
+						keys = append(keys, fu.ops[o])
+					}
+					one(fu, seqCase{"seq", fu.name, keys, nil})
+				})
+			}
+		}
+	}
 }
 
 // ---------------------------------------------------------------------------------
@@ -1419,7 +1601,7 @@ func main() {
 		Level:       "model_checking",
 		Evaluations: total.Counters["executions"] + total.Counters["seq_cases"],
 		Distinct:    total.Counters["seq_nontrivial"] + contended,
-		Rule: "sequential: every insertion sequence up to the length bound over {default,write} x {a,aa,a\\x00,a\\xff,b} x {1,2,max} (and, one column family, every skiplist tower-height vector), fresh skiplist + ART + sorted-slice model, every probe of the probe universe: Search, forward/reverse scan, Seek+Next in both directions; non-trivial = sequences with >=2 distinct internal keys. " +
+		Rule: "sequential: every insertion sequence up to the length bound over {default,write} x {a,aa,a\\x00,a\\xff,b} x {1,2,max} (and, one column family, every skiplist tower-height vector), fresh skiplist + ART + sorted-slice model, every probe of the probe universe: Search, forward/reverse scan, Seek+Next in both directions; non-trivial = sequences with >=2 distinct internal keys; fan-out universes: N in {3,4,5,15,16,17,47,48,49,255,256} sibling keys differing in one user-key byte or in the last timestamp byte (versions of one key), inserted ascending / descending / interleaved, followed by every sequence of a 6-symbol op alphabet (insert below the smallest / above the largest / into the gap, overwrite smallest / largest / middle), so one ART inner node passes through Node4, Node16, Node48, Node256 and every growth step. " +
 			"concurrent: every schedule with at most `bound` preemptions of each scenario (2-3 writer threads, optional reader) on one real index; scheduling points = every sync/atomic operation of skiplist.go, art.go, arena.go; non-trivial = scenarios that produced more than one distinct outcome",
 		Samples:     total.SamplesAny(),
 		States:      total.Counters["steps"] + total.Counters["seq_cases"],
@@ -1428,8 +1610,8 @@ func main() {
 		Exhaustive:  !total.TimedOut,
 		Outcomes:    total.Card("outcomes"),
 		Bounds: map[string]any{"seq_max_len": r.Pick(3, 4), "seq_universe_keys": 30, "seq_height_vectors": fmt.Sprintf("{1..%d}^len on the 15-key universe", r.Pick(2, 3)),
-			"arena": "one 1 MiB chunk", "preemption_bound": r.Pick(2, 3), "scenarios": names},
-		Extra: map[string]any{"sequential_cases": total.Counters["seq_cases"], "schedules": total.Counters["executions"], "scheduling_steps": total.Counters["steps"],
+			"arena": "one 1 MiB chunk", "fanout_sizes": fanSizes, "fanout_families": fanFamilies, "fanout_orders": fanOrders, "fanout_op_seq_max_len": r.Pick(2, 3), "preemption_bound": r.Pick(2, 3), "scenarios": names},
+		Extra: map[string]any{"sequential_cases": total.Counters["seq_cases"], "fanout_cases": total.Counters["fanout_cases"], "schedules": total.Counters["executions"], "scheduling_steps": total.Counters["steps"],
 			"max_decisions_per_schedule": total.Counters["max_decisions"], "schedules_per_scenario": perJob, "scenarios_with_contention": contended},
 		Assumptions: []string{"sequentially consistent atomics; plain (non-atomic) accesses are not scheduling points (a free-running -race pass of the same bodies is registered separately as C07-race)",
 			"skiplist tower heights are chosen by the harness (Skiplist.randomHeight is routed through utils.VerifHeight in the instrumented copy) and quantified explicitly",
